@@ -377,6 +377,21 @@ func c08Programs() []c08Prog {
 				{"default range bound", "BUILD.dawn", "d=range(0, 6, 2)", "d=range(0, 8, 2)", true},
 				{"default range step", "BUILD.dawn", "d=range(0, 6, 2)", "d=range(0, 6, 3)", true},
 				{"comment", "BUILD.dawn", "R = range(3)", "R = range(3)  # r", false},
+			}},
+		// the views of a string / of bytes: values that are neither data nor callables nor attribute holders (two of them
+		// are sequences, three only iterables; could not be fingerprinted before beffa21).  A view is not the list of its
+		// elements, and the two views of each pair differ even when they have no elements.
+		c08Prog{Name: "string-views", Target: "//:t", Files: map[string]string{"BUILD.dawn": "CP = \"abc\".codepoints()\nEL = \"xyz\".elems()\nEMPTY = \"\".codepoints()\n\ndef helper(v):\n    return [c for c in v]\n\ndef mk(c):\n    def f():\n        return helper(c)\n    return f\n\nC = mk(b\"ab\".elems())\n\n@target()\ndef t(self, d=\"abc\".codepoint_ords(), e=\"abc\".elem_ords()):\n    print(helper(CP), EL, EMPTY, C(), d, e)\n"},
+			Muts: []c08Mut{
+				{"string under a global codepoints view", "BUILD.dawn", "CP = \"abc\".codepoints()", "CP = \"abd\".codepoints()", true},
+				{"global codepoints view replaced by the ordinals view", "BUILD.dawn", "CP = \"abc\".codepoints()", "CP = \"abc\".codepoint_ords()", true},
+				{"global codepoints view replaced by the list of its elements", "BUILD.dawn", "CP = \"abc\".codepoints()", "CP = [\"a\", \"b\", \"c\"]", true},
+				{"global elems view replaced by the list of its elements", "BUILD.dawn", "EL = \"xyz\".elems()", "EL = [\"x\", \"y\", \"z\"]", true},
+				{"view of the empty string replaced by its other view", "BUILD.dawn", "EMPTY = \"\".codepoints()", "EMPTY = \"\".codepoint_ords()", true},
+				{"captured bytes view", "BUILD.dawn", "mk(b\"ab\".elems())", "mk(b\"ac\".elems())", true},
+				{"default ordinals view replaced by the list of its elements", "BUILD.dawn", "e=\"abc\".elem_ords()", "e=[97, 98, 99]", true},
+				{"default ordinals view of another string", "BUILD.dawn", "d=\"abc\".codepoint_ords()", "d=\"abC\".codepoint_ords()", true},
+				{"comment", "BUILD.dawn", "CP = \"abc\".codepoints()", "CP = \"abc\".codepoints()  # view", false},
 			}})
 	progs = append(progs, c08ShapePrograms()...)
 	return progs
